@@ -7,6 +7,7 @@ import (
 	"go/constant"
 	"go/types"
 	"math/big"
+	"sort"
 	"strings"
 )
 
@@ -889,6 +890,28 @@ func (env *Env) elabCall(x *ECall) Val {
 			return Val{T: types.Typ[types.Bool], S: fmt.Sprintf("(>= (rootof %s) %s)", a.S, env.freshBase)}
 		}
 		fail("fresh() needs a slice or pointer")
+	case name == "preserved":
+		// preserved(): every memory cell of every object that existed in the old state (function entry) still
+		// holds its old value - the function has so far written only to objects it allocated itself. One
+		// quantifier per memory, triggered by reads of the current memory.
+		if env.old == nil || env.freshBase == "" {
+			fail("preserved() not available here")
+		}
+		var keys []string
+		for k := range c.memSorts {
+			keys = append(keys, k)
+		}
+		sort.Strings(keys)
+		var cs []string
+		for _, k := range keys {
+			srt := c.memSorts[k]
+			cur, old := env.mem(k, srt), env.old.mem(k, srt)
+			if cur == old {
+				continue
+			}
+			cs = append(cs, fmt.Sprintf("(forall ((p!u Loc)) (! (=> (< (rootof p!u) %s) (= (select %s p!u) (select %s p!u))) :pattern ((select %s p!u))))", env.freshBase, cur, old, cur))
+		}
+		return Val{T: types.Typ[types.Bool], S: and(cs...)}
 	case name == "reached":
 		// reached($x): the instruction that produced the named value lies on the current path
 		id, ok := x.Args[0].(*EIdent)
